@@ -31,9 +31,21 @@ def main() -> int:
     env = make_env(inst)
     if second:
         first = mkjob(inst, frozenset())
-        record(inst, first, env, precompute(first), seed0, sequential(inst, frozenset()))
+        try:
+            record(inst, first, env, precompute(first), seed0, sequential(inst, frozenset()))
+        except Exception:
+            pass        # (a failing pre-computation shows in the recorded job below)
     job = mkjob(inst, none_tasks)
-    pre = precompute(job)
+    try:
+        pre = precompute(job)
+    except Exception as e:
+        # the scheduler's pre-computation itself fails on this (well formed) job: the run never starts
+        import traceback
+        tb = traceback.extract_tb(e.__traceback__)
+        site = next((f"{f.filename.split('/src/')[-1]}:{f.lineno}" for f in reversed(tb) if "/cascade/" in f.filename), "?")
+        json.dump([[{"ev": "crash", "what": "precompute: " + repr(e)[:160], "site": site, "shutdown": False}]], open(out, "w"))
+        json.dump({"comp_of": inst.components(), "complete": None, "n_orders": 0}, open(out + ".meta", "w"))
+        return 0
     expected = sequential(inst, none_tasks)
     _, comp_of = comp_names(pre)
     traces = []
